@@ -1221,7 +1221,16 @@ func (ex *Exec) index(st *State, fr *Frame, ins *ssa.Index) bool {
 			return false
 		}
 		if !i.isConst {
-			fail("symbolic index into string")
+			// a lookup table ("0123456789abcdef"[n] and the like): one ite per character
+			if len(s) > 256 {
+				fail("symbolic index into a string of %d characters", len(s))
+			}
+			v := bvConst(uint64(s[len(s)-1]), 8)
+			for k := len(s) - 2; k >= 0; k-- {
+				v = tIte(tEq(i, u64(int64(k))), bvConst(uint64(s[k]), 8), v)
+			}
+			fr.env[ins] = v
+			break
 		}
 		fr.env[ins] = bvConst(uint64(s[i.v]), 8)
 	case ArrV:
